@@ -13,7 +13,7 @@ use crate::gen::*;
 use crate::prog::*;
 use crate::c02::{ints_of, wrap, in_ctx, ctx_ok};
 use crate::c07::{random_program, segment};
-use crate::c16::os_encode;
+use crate::c16::{os_encode, os_encode_forms};
 use bcder::decode::{Constructed, IntoSource, Source};
 use bcder::encode::Values;
 use bcder::{BitString, Captured, Ia5String, Integer, Mode, NumericString, OctetString, Oid, PrintableString, Tag, Unsigned, Utf8String};
@@ -259,7 +259,7 @@ pub fn run(em: &mut Emitter, rng: &mut Rng, thorough: bool) {
         let n = rng.range(0, 9) as usize;
         let mut d = if tag & 0x20 != 0 && tag != 0x30 {
             // constructed string: a random segmentation (valid or damaged)
-            let c = hostile_content(rng, n); let o = segment(rng, &c, 3); let mut t = Vec::new(); os_encode(&o, tag & 0x1f, &mut t);
+            let c = hostile_content(rng, n); let o = segment(rng, &c, 3); let mut t = Vec::new(); if rng.bool() { os_encode(&o, tag & 0x1f, &mut t) } else { os_encode_forms(&o, tag & 0x1f, &mut t, rng) };
             if let crate::c16::Os::Prim(_) = o { t[0] |= 0x20; }
             t
         } else { let c = hostile_content(rng, n); tlv(tag, &c) };
